@@ -416,9 +416,27 @@ func bigString(rng *common.Rng, class string, n int) string {
 	return string(b)
 }
 
+// keys the engine itself gives a meaning to elsewhere (metadata entry key of legacy files, the
+// metadata struct's key, magic bytes, file suffixes, V1 meta file name) and look-alikes, plus keys
+// with separators and control bytes: as ordinary INSERT/UPDATE/DELETE keys they are keys like any other
+var reservedKeys = []string{v2.MetadataEntryKey, v2.MetadataKey, "__swamp_meta_", "__swamp_meta___", "_" + v2.MetadataEntryKey,
+	v2.MagicBytes, "meta", ".hyd", ".compact", "s/r/w", "/", "\x00", "a\x00b", " ", "\n", "k\xff"}
+
 func genKeys(rng *common.Rng, n int, small bool) []string {
 	seen := map[string]bool{}
 	var ks []string
+	if rng.Chance(25) {
+		for j := 0; j < 1+rng.Intn(2); j++ {
+			k := reservedKeys[rng.Intn(len(reservedKeys))]
+			if j == 0 && rng.Chance(50) {
+				k = reservedKeys[rng.Intn(2)]
+			}
+			if !seen[k] {
+				seen[k] = true
+				ks = append(ks, k)
+			}
+		}
+	}
 	for len(ks) < n {
 		l := keyLens[rng.Intn(len(keyLens))]
 		if small || rng.Chance(70) {
@@ -522,7 +540,7 @@ func genW(rng *common.Rng, nops int, thorough bool) []wop {
 			case q < 96:
 				op = v2.OpMetadata
 			default:
-				op = 9
+				op = []uint8{9, 0, 255, 5}[rng.Intn(4)]
 			}
 			if op != v2.OpDelete || rng.Chance(10) {
 				seq++
@@ -540,6 +558,20 @@ func genW(rng *common.Rng, nops int, thorough bool) []wop {
 		}
 	}
 	ops = append(ops, wop{Kind: "close"})
+	// An OpMetadata entry under the metadata key is, by design, where a file without a name
+	// in its header gets its name from (legacy fallback): keep that combination to histories
+	// in which every file has a header name, where it must change nothing.
+	nameless := false
+	for _, o := range ops {
+		nameless = nameless || (o.Kind == "open" && (o.Name == "" || len(o.Name) > 65535))
+	}
+	if nameless {
+		for i := range ops {
+			if ops[i].Kind == "write" && ops[i].Op == v2.OpMetadata && ops[i].Key == v2.MetadataEntryKey {
+				ops[i].Op = 9
+			}
+		}
+	}
 	return ops
 }
 
